@@ -278,6 +278,10 @@ class Encoder:
 
 # ------------------------------------------------------------------ target generator
 NAMES = ['a', 'b', 'c', 'k0']
+# names that coincide with glom's internal op characters / wildcard spellings: a segment merely
+# NAMED like an op must still be an ordinary key / attribute
+OP_NAMES = ['x', 'X', 'P']
+STAR_KEYS = ['*', '**', '.', '[']          # dict keys only; reachable through Path(...) / T[...]
 SCALARS = [None, True, False, 0, 1, 7, -3, 'x', 'abc', '']
 
 
@@ -331,11 +335,16 @@ class HeapGen:
         if lay in ('tuple', 'set') and n == 0:
             n = 1     # CPython shares the empty tuple / frozenset: distinct empty cells would be one object
         if lay == 'dict':
-            keys = r.sample(NAMES + [0, 1, '0', '1', '-1', 'x y'], n)
+            pool = NAMES + [0, 1, '0', '1', '-1', 'x y']
+            keys = r.sample(pool, n)
+            if n and r.random() < 0.3:
+                keys[r.randrange(n)] = r.choice(OP_NAMES + OP_NAMES + STAR_KEYS)
             cell['v'] = [[jval(k), self.node(depth + 1)] for k in keys]
         elif lay == 'inst':
             pool = NAMES + (['ro'] if cell['c'] == 'ROObj' else [])
             keys = r.sample(pool, min(n, len(pool)))
+            if keys and r.random() < 0.3:
+                keys[r.randrange(len(keys))] = r.choice(OP_NAMES)
             cell['v'] = [[k, self.node(depth + 1)] for k in keys]
         elif lay == 'set':
             cell['v'] = [jval(r.choice([0, 1, 7, 'x']))]
@@ -521,7 +530,7 @@ def load_corpus(prop):
 
 
 # ------------------------------------------------------------------ destination generator
-NEW_NAMES = ['n0', 'n1', 'zz']
+NEW_NAMES = ['n0', 'n1', 'zz', 'x', 'X']
 BAD_SEGS = [{'s': 'zz'}, {'s': '99'}, {'s': '-99'}, {'i': 99}, {'i': -99}, {'s': ''}, None,
             {'b': True}, {'s': '+1'}, {'s': '0'}, {'i': 0}, {'s': 'a'}]
 
@@ -619,6 +628,51 @@ def gen_star_case(rng, present=True):
     else:
         steps.append(('attr', {'s': 'a' if present else 'zz'}))
     return heap, root, steps
+
+
+def perturb_heap(heap):
+    """a variant of the heap with the same shape and the same keys / attribute names / lengths
+    but different scalar leaves (ints + 100, strings + '~'): the same path breaks off at the
+    same segment, the values it reaches differ"""
+    def pv(v):
+        if isinstance(v, dict) and 'i' in v:
+            return {'i': v['i'] + 100}
+        if isinstance(v, dict) and 's' in v:
+            return {'s': v['s'] + '~'}
+        return v
+    out = []
+    for cell in heap:
+        c = {'k': cell['k'], 'c': cell['c']}
+        if cell['k'] == 'dict':
+            c['v'] = [[k, pv(v)] for k, v in cell['v']]
+        elif cell['k'] == 'inst':
+            c['v'] = [[k, pv(v)] for k, v in cell['v']]
+        elif cell['k'] == 'set':
+            c['v'] = list(cell['v'])
+        else:
+            c['v'] = [pv(v) for v in cell['v']]
+        out.append(c)
+    return out
+
+
+def warm_up(case, spec, factory=None):
+    """history: apply the SAME spec object first to `case['warmup']` other targets (perturbed copies
+    of the case's heap, built as separate objects); outcomes are ignored — a spec object must not
+    carry anything over to its next use"""
+    import glom
+    for i in range(case.get('warmup') or 0):
+        wheap = perturb_heap(case['heap']) if i % 2 == 0 else case['heap']
+        wobjs, wdv = decode(wheap)
+        kw = {}
+        if case.get('scope') is not None:
+            kw['scope'] = wdv(case['scope'])
+        try:
+            glom.glom(wdv(case['target']), spec, **kw)
+        except Exception:
+            pass
+    if factory is not None:
+        factory.calls = 0
+        del factory.made[:]
 
 
 def mutate_dest(rng, steps):
